@@ -27,6 +27,13 @@ struct Plain {
     value: BigDecimal,
 }
 
+/// true in the child exploration against the subject built with its `string-only` feature: the plain
+/// `Deserialize` impl then accepts strings only (numbers and primitive tokens are refused by design), while the
+/// JSON-number adapters keep reading and writing numbers
+fn string_only() -> bool {
+    std::env::var("VERIF_IS_VARIANT").as_deref() == Ok("string_only")
+}
+
 fn scale_limit() -> i128 {
     let s = option_env!("RUST_BIGDECIMAL_SERDE_SCALE_LIMIT").unwrap_or("150000");
     if s.eq_ignore_ascii_case("none") {
@@ -111,7 +118,9 @@ fn check_doc(entry: &str, doc: &str) -> Option<Violation> {
     let is_string = doc.len() >= 2 && doc.starts_with('"') && doc.ends_with('"') && serde_json::from_str::<String>(doc).is_ok();
     let is_null = doc == "null";
     // the adapters only read numbers (and null); the plain impl also reads numeric strings
-    let want: Result<Option<Dec>, ()> = if is_number {
+    let want: Result<Option<Dec>, ()> = if is_number && entry == "BigDecimal" && string_only() {
+        Err(())
+    } else if is_number {
         match expected_parse(doc) {
             Some(d) if (entry == "json_num" || entry == "json_num_option") && lim > 0 && d.s.abs() > lim => Err(()),
             Some(d) => Ok(Some(d)),
@@ -175,6 +184,8 @@ macro_rules! int_tokens {
             let case = json!({"kind": "token", "type": stringify!($ty), "value": v.to_string()});
             match got {
                 Ok(Ok(x)) if dec(&x) == want => {}
+                // string-only: `deserialize_str` is a hint; a format may refuse the token or hand it over anyway
+                Ok(Err(_)) if string_only() => {}
                 Ok(other) => $run.report(Violation::new("serde token", "wrong_value", case, want.show(), format!("{:?}", other.map(|x| show(&x)).map_err(|e| e.to_string())))),
                 Err(p) => $run.report(Violation::new("serde token", "panic", case, want.show(), p)),
             }
@@ -197,6 +208,11 @@ fn check_float_token_f32(bits: u32) -> Option<Violation> {
     judge_float(case, want, got)
 }
 fn judge_float(case: Value, want: Option<Dec>, got: Result<Result<BigDecimal, ::serde::de::value::Error>, String>) -> Option<Violation> {
+    // string-only: `deserialize_str` is a hint; a format may refuse the token (fine) or hand it over anyway (then
+    // the value must be exact)
+    if string_only() && matches!(got, Ok(Err(_))) {
+        return None;
+    }
     let exp = want.as_ref().map(|w| w.show()).unwrap_or("an error".into());
     match (got, &want) {
         (Err(p), _) => Some(Violation::new("serde token", "panic", case, exp, p)),
@@ -333,7 +349,7 @@ fn main() {
     run.bound("serde_scale_limit", lim as i64);
     run.rule("round trips: every decimal of each sub-domain x 6 routes (string form via to_string/to_value/to_vec, derive structs with the default impl, json_num and json_num_option) must come back equal, with identical digits and scale wherever Display keeps them; reads: every string of length <= L over {0,1,9,-,+,.,e,E} (and quoted, and grammar-generated long numbers) through 4 entry points, expected outcome = serde_json's own 'is a number' verdict + the model's digit-for-digit denotation + the scale limit of the adapters; tokens of every integer/float width exact; non-trivial = documents/decimals that must produce a value; cases distinct by construction");
     run.assume("the scale limit is required of both JSON-number adapters (json_num and json_num_option)");
-    run.assume("feature set explored: std + serde-json; the string-only build is not explored by this driver");
+    run.assume("in the string-only build the plain Deserialize impl asks for a string: serde_json refuses a JSON number there (expected: an error), token deserializers may refuse a primitive or hand it over anyway (then it must convert exactly); everything else is judged as in the default build");
 
     // R1: small-scope round trips
     let nmax: i64 = tier.pick(999, 199_999);
@@ -724,6 +740,9 @@ fn main() {
         }
         t
     });
+    // the whole exploration once more against the subject built WITH its `string-only` feature
+    run.bound("build_variants", "std + serde-json (this process); std + serde-json + string-only (child process, same domain)");
+    run.variant("string_only");
     let _ = BigInt::zero();
     run.finish();
 }
